@@ -5,7 +5,7 @@
    parameters, the same precondition and the same effects, where
      - the conjuncts of an 'and', the disjuncts of an 'or' and the members of an effect list are SETS
        (order and repetition are irrelevant);
-     - a body that is a single condition is the conjunction of that one condition;
+     - a body that is a single condition is the conjunction of that one condition; (= a b) is (= b a);
      - two numeric constants are the same when they round to the same numeral with d decimals
        ("{:.df}" in exact arithmetic on the binary value, Base.Float.format_fixed): dpre decimals inside
        conditions, deff decimals inside numeric effects.
@@ -46,8 +46,8 @@ Fixpoint show_form (d : nat) (f : form) : string :=
   match f with
   | FAtom p args => paren (p :: args)
   | FNotAtom p args => paren ["not"; paren (p :: args)]
-  | FEq a b => paren ["="; a; b]
-  | FNeq a b => paren ["not"; paren ["="; a; b]]
+  | FEq a b => if String.leb a b then paren ["="; a; b] else paren ["="; b; a]           (* equality is symmetric *)
+  | FNeq a b => paren ["not"; if String.leb a b then paren ["="; a; b] else paren ["="; b; a]]
   | FCmp c l r => paren [cmpop_name c; show_nexp d l; show_nexp d r]
   | FAnd l => paren ("and" :: as_set ((fix go (l : list form) : list string :=
                                          match l with [] => [] | x :: r => show_form d x :: go r end) l))
